@@ -177,6 +177,20 @@ def run(ctx):
                         r = ("int", b) if sb > 0 else ("unary", "-", ("int", b))
                         mat.append((("binding_expr", ("binary", op, l, r)), "matrix:%s" % op))
                         pool_meta.append((op, sa * a, sb * b))
+    # the most negative value cannot be written as a literal; computed (-max - 1, ~max) it is an operand like any other: x / -1, x % -1, x * -1, -x, x - 1 ...
+    imin = [("binary", "-", ("unary", "-", ("int", 2 ** 63 - 1)), ("int", 1)), ("unary", "~", ("int", 2 ** 63 - 1))]
+    for op in ops:
+        for k, l in enumerate(imin):
+            for b in (0, 1, 2, 63, 64, 2 ** 63 - 1):
+                for sb in (1, -1):
+                    r = ("int", b) if sb > 0 else ("unary", "-", ("int", b))
+                    mat.append((("binding_expr", ("binary", op, l, r)), "matrix-min:%s" % op))
+                    pool_meta.append((op, I64_MIN, sb * b))
+                    if k == 0:
+                        mat.append((("binding_expr", ("binary", op, r, l)), "matrix-min:%s" % op))
+                        pool_meta.append((op, sb * b, I64_MIN))
+        mat.append((("binding_expr", ("binary", op, imin[0], imin[1])), "matrix-min:%s" % op))
+        pool_meta.append((op, I64_MIN, I64_MIN))
     pool.add(mat)
     pool.run()
     for i, (meta, e) in enumerate(zip(pool_meta, pool.expected)):
@@ -194,6 +208,57 @@ def run(ctx):
                 ctx.violation("constant %s folds to %r; the mathematical value is %r%s" % (pool.sources[i], got, want, " (undefined: must be rejected)" if want is None else ""),
                               {"case": pool.sources[i], "impl_output": ev, "oracle_output": want, "theorem_or_correspondence": "S: big-integer oracle / C03_fold_*"})
     pool_meta.clear()
+    # ---------------- 2a. unary operators on a constant of every type: + - on numbers, ~ on integers, ! on booleans have a value; there is no conversion of a string, a boolean, null,
+    # a list or an enumerator to a number, so every other combination has no constant value (folding it to the operand, as `+x` might, is a wrong value: ES gives NaN / 1 / 0)
+    uatoms = [(("int", 0), 0), (("int", 7), 7), (("unary", "-", ("int", 7)), -7), (("int", 2 ** 63 - 1), 2 ** 63 - 1), (("binary", "-", ("unary", "-", ("int", 2 ** 63 - 1)), ("int", 1)), I64_MIN),
+              (("float", "2.5"), 2.5), (("unary", "-", ("float", "0.0")), -0.0), (("str", "abc"), "abc"), (("str", "12"), "12"), (("str", ""), ""), (("bool", True), True), (("bool", False), False),
+              (("null",), None), (("array", []), []), (("array", [("int", 1)]), [1]), (("member", ("ident", "VObj"), "ModeB"), "enum"), (("binary", "+", ("str", "a"), ("str", "b")), "ab")]
+    upool = tircheck.Pool(ctx)
+    umeta = []
+    for op in ("+", "-", "~", "!"):
+        for (ua, uv) in uatoms:
+            for wrap in (False, True):
+                e1 = ("unary", op, ua)
+                upool.add([(("binding_expr", ("unary", "+", e1) if wrap else e1), "unary-matrix:%s" % op)])
+                umeta.append((op, uv, wrap))
+    upool.run()
+    for i, ((op, v, wrap), e) in enumerate(zip(umeta, upool.expected)):
+        ctx.count(("ufold", op, repr(v), wrap), True)
+        r = upool.impl[i]
+        if e is None:
+            ctx.violation("constant expression crashes the builder: %r" % (r,), {"case": upool.sources[i], "impl_output": r})
+            continue
+        ev = r.get("eval") if isinstance(r, dict) else None
+        if not isinstance(ev, dict) or not ev:
+            continue                      # no constant value / rejected: safe
+        isint = isinstance(v, int) and not isinstance(v, bool)
+        isflt = isinstance(v, float)
+        want = None
+        if op == "+" and (isint or isflt):
+            want = v
+        elif op == "-" and isint:
+            want = -v if -v <= I64_MAX else None
+        elif op == "-" and isflt:
+            want = -v
+        elif op == "~" and isint:
+            want = ~v
+        elif op == "!" and isinstance(v, bool):
+            want = (not v)
+        if wrap and isinstance(want, bool):
+            want = None                   # +(!b): no number from a boolean
+        if want is None:
+            ctx.violation("constant %s is given the value %r; the operator has no value on this operand (no conversion to a number exists): it must be refused" % (upool.sources[i], ev),
+                          {"case": upool.sources[i], "impl_output": ev, "oracle_output": "rejected", "theorem_or_correspondence": "S: unary operators on constants"})
+            continue
+        if isinstance(want, bool):
+            ok = ev.get("bool") == want
+        elif isinstance(want, float):
+            ok = ev.get("float") == struct.unpack("<Q", struct.pack("<d", want))[0]
+        else:
+            ok = ev.get("int") == want
+        if not ok:
+            ctx.violation("constant %s folds to %r; its value is %r" % (upool.sources[i], ev, want), {"case": upool.sources[i], "impl_output": ev, "oracle_output": repr(want),
+                                                                                                   "theorem_or_correspondence": "S: unary operators on constants"})
     # ---------------- 2b. float constants: every operator on the IEEE corner values (signed zero, denormal, huge, infinities and NaN obtained by folding)
     F = lambda t: ("float", t)
     fatoms = [(F("0.0"), 0.0), (("unary", "-", F("0.0")), -0.0), (F("1.0"), 1.0), (F("2.5"), 2.5), (("unary", "-", F("2.5")), -2.5), (F("1e308"), 1e308), (F("5e-324"), 5e-324),
@@ -557,7 +622,7 @@ def oracle_fold(op, a, b):
     def rng(x):
         return x if I64_MIN <= x <= I64_MAX else None
     # the operands themselves: -(2^63) is not expressible as a literal (the literal 2^63 is rejected first)
-    if abs(a) > I64_MAX or abs(b) > I64_MAX:
+    if not (I64_MIN <= a <= I64_MAX and I64_MIN <= b <= I64_MAX):
         return None
     if op == "+":
         return rng(a + b)
